@@ -10,7 +10,9 @@ LEVEL = "proof"
 EXPLANATION = (
     "MD4 compression (passlib/crypto/_md4.py::md4._process) is verified step by step against RFC 1320 (ghost lock-step, "
     "48 cut points, 64-bit vectors with no-overflow side obligations); Salsa20/8, DES key expansion, scrypt parameter "
-    "validation, HMAC pads and PBKDF1 are verified from their real source; DES rounds, bcrypt core, ROMix, PBKDF2 and "
+    "validation, MD4's buffering (update: the stream reaches the compression function in order in 64-byte blocks, remainder "
+    "kept, block count advanced), copy and padding (digest), and compile_hmac == RFC 2104 over an abstract hash (bytes and text keys) "
+    "with its pad tables are verified from their real source; DES rounds, bcrypt core, ROMix, PBKDF1/2 and "
     "SASLprep are covered by the bounded stand-in against independent references."
 )
 ASSUMPTIONS = [
@@ -276,6 +278,43 @@ CONTRACTS.append(Contract(
     descr="every buffer of < 64 bytes, every block count",
 ))
 
+# ---- MD4 buffering: update() feeds the stream to the compression function in 64-byte blocks, in order -------------------
+def _md4_update_setup(it, args):
+    from pyvc.values import SStr
+    self = args["self"]
+    buf = SStr(z3.String("buf0"), "bytes")
+    it.note_input("buf0", buf)
+    it.run.assume(z3.Length(buf.e) < 64)
+    count = it.sym_int("count0")
+    it.run.assume(count.e >= 0)
+    self.fields.update({"_buf": buf, "_count": count, "absorbed": SStr(z3.StringVal(""), "bytes")})
+
+    def process(it2, a, k):
+        blk = it2.to_z3(a[0])
+        it2.run.oblige("callee-precondition", z3.Length(blk) == 64, "_process receives exactly one 64-byte block", it2.lineno)
+        self.fields["absorbed"] = SStr(z3.Concat(it2.to_z3(self.fields["absorbed"]), blk), "bytes")
+
+    self.fields["_process"] = SStub(process, "_process (own contract above)")
+    it.run.ghost.update({"buf0": buf, "count0": count})
+    return {"buf0": buf, "count0": count}
+
+
+CONTRACTS.append(Contract(
+    "md4.update", f"{M}::md4.update",
+    params={"self": Obj(cls=(M, "md4")), "content": __import__("pyvc.contract", fromlist=["Bytes"]).Bytes()},
+    setup=_md4_update_setup,
+    loops={"update#0": Loop(invariant=["idx % 64 == 0", "0 <= idx", "idx <= end", "end == len(content)", "self.absorbed == content[0:idx]", "self._count == count0 + idx // 64",
+                                        "content == (buf0 + old_content if len(buf0) > 0 else old_content)"],
+                            modifies=["idx", "next", "self.absorbed", "self._count", "self._buf"], decreases="end - idx")},
+    ensures=[
+        ("the stream buf + content is handed to the compression function in order, in 64-byte blocks, as far as whole blocks go",
+         "self.absorbed == (buf0 + content)[0:64 * ((len(buf0) + len(content)) // 64)]"),
+        ("the rest (< 64 bytes) is kept for the next call", "self._buf == (buf0 + content)[64 * ((len(buf0) + len(content)) // 64):] and len(self._buf) < 64"),
+        ("the block count advances by the number of blocks processed", "self._count == count0 + (len(buf0) + len(content)) // 64"),
+    ],
+    descr="every buffered remainder (< 64 bytes), every content, any block count; compression function abstract (own contract)",
+))
+
 # ---- HMAC (RFC 2104) over an abstract hash -----------------------------------------------------------
 DG = "passlib/crypto/digest.py"
 Hf = z3.Function("H", z3.StringSort(), z3.StringSort())
@@ -428,4 +467,7 @@ MUTANTS = [
     ("md4.copy forgets the block count", M, "        other = md4()\n        other._count = self._count\n", "        other = md4()\n", "refute", "md4.copy"),
     ("md4.copy shares the state list", M, "        other._state = list(self._state)", "        other._state = self._state", "refute", "md4.copy"),
     ("hmac: a text key is measured in characters", DG, "    if not isinstance(key, bytes):\n        key = to_bytes(key, param=\"key\")\n    klen = len(key)\n", "    klen = len(key)\n    if not isinstance(key, bytes):\n        key = to_bytes(key, param=\"key\")\n", "refute", "text key"),
+    ("md4.update: an exact final block stays in the buffer", M, "            if next <= end:\n                self._process(content[idx:next])", "            if next < end:\n                self._process(content[idx:next])", "refute", "md4.update"),
+    ("md4.update: block count not advanced", M, "                self._process(content[idx:next])\n                self._count += 1\n", "                self._process(content[idx:next])\n", "refute", "md4.update"),
+    ("md4.update: buffered bytes appended after the new content", M, "            content = buf + content", "            content = content + buf", "refute", "md4.update"),
 ]
